@@ -90,14 +90,14 @@ fn small(args: &Args) -> i32 {
     let mut sink = Sink::create(&args.str("out", "c25-small.ndjson"));
     // pre-states (injected): clocks x price timestamps x stored (valid) prices
     let slots: &[u64] = if full { &[0, 1, 2] } else { &[0, 1] };
-    let pubs: &[i64] = if full { &[0, 1, 2, 3] } else { &[0, 2] };
-    let tss: &[i64] = if full { &[0, 1, 2, 3, 4] } else { &[0, 2, 3] };
+    let pubs: &[i64] = if full { &[0, 2, 3] } else { &[0, 2] };
+    let tss: &[i64] = if full { &[0, 2, 3, 4] } else { &[0, 2, 3] };
     let stored: &[(u128, u128, u128)] =
-        if full { &[(0, 0, 0), (1, 1, 1), (2, 1, 3), (1, 1, 2), (3, 2, 3), (2, 2, 2)] } else { &[(0, 0, 0), (2, 1, 3), (2, 2, 2)] };
+        if full { &[(0, 0, 0), (1, 1, 1), (2, 1, 3), (2, 2, 2)] } else { &[(0, 0, 0), (2, 1, 3), (2, 2, 2)] };
     // requests: the domain of MC_Feed
     let lv: &[u128] = &[1, 2, 3];
     let rts: &[i64] = &[0, 1, 2, 3, 4];
-    let rslots: &[u64] = if full { &[0, 1, 2] } else { &[0, 1] };
+    let rslots: &[u64] = &[0, 1];
     let rnow: &[i64] = if full { &[0, 1, 2, 3] } else { &[0, 2, 3] };
     let mut f = new_feed();
     let mut first = true;
